@@ -67,6 +67,8 @@ type BConf struct {
 	EvictFrac  float64 `json:"evictFrac"`
 	EvictNeed  bool    `json:"evictNeeded"`
 	Name       string  `json:"name"`
+
+	JanitorInterval time.Duration `json:"janitorInterval"` // 0 = the janitor never fires on its own
 }
 
 // EffJitter returns the effective jitter fraction (0 when disabled).
@@ -91,6 +93,10 @@ func (c BConf) Config(st cache.StatsTracker) cache.Config {
 		// beyond any sleep); cleanup cycles are driven explicitly.
 		DeleteExpiredJobInterval: 1000000 * time.Hour, ItemsCountReportInterval: 1000000 * time.Hour,
 	}
+	if c.JanitorInterval > 0 {
+		cfg.DeleteExpiredJobInterval = c.JanitorInterval
+	}
+
 	if c.EvictNeed {
 		cfg.EvictionNeeded = func() bool { return true }
 	}
@@ -204,6 +210,7 @@ func RunBackendOps(t *testing.T, rng *rand.Rand, fl string, conf BConf, g GenOpt
 
 		jm := NewJitterMirror(seed, conf)
 		ctx := context.Background()
+		nextJanitor := time.Now().UnixNano() + int64(conf.JanitorInterval)
 
 		nops := g.NOps
 		if g.Script != nil {
@@ -234,8 +241,21 @@ func RunBackendOps(t *testing.T, rng *rand.Rand, fl string, conf BConf, g GenOpt
 				kind = map[string]string{"load": "read", "store": "write"}[kind]
 			}
 
+			if conf.JanitorInterval > 0 {
+				// keep track of janitor cycles that fired during sleeps of other operations
+				synctest.Wait()
+
+				for nextJanitor <= time.Now().UnixNano() {
+					out.Ops = append(out.Ops, BOp{Kind: "cleanup", Now: nextJanitor})
+					out.Results = append(out.Results, Res{Kind: "unit"})
+					nextJanitor += int64(conf.JanitorInterval)
+				}
+			}
+
 			buf := append([]byte{}, k...) // the caller's buffer
 			op := BOp{Kind: kind, Now: time.Now().UnixNano()}
+
+			var afterWalk *Res
 
 			var res Res
 
@@ -307,10 +327,34 @@ func RunBackendOps(t *testing.T, rng *rand.Rand, fl string, conf BConf, g GenOpt
 				b.Store(buf, op.V)
 				res = Res{Kind: "unit"}
 			case "cleanup":
+				// bracketed by explicit walks: [OWalk; OCleanup; OWalk]
 				before := b.Walk()
+				out.Ops = append(out.Ops, BOp{Kind: "walk"})
+				out.Results = append(out.Results, before)
 				b.Cleanup()
-				after := b.Walk()
-				op.Removed = removedKeys(before, after)
+				afterWalk = new(Res)
+				*afterWalk = b.Walk()
+				op.Removed = removedKeys(before, *afterWalk)
+				res = Res{Kind: "unit"}
+			case "janitor":
+				// let the real janitor goroutine run its cycles: sleep across k intervals
+				before := b.Walk()
+				out.Ops = append(out.Ops, BOp{Kind: "walk"})
+				out.Results = append(out.Results, before)
+
+				iv := int64(conf.JanitorInterval)
+				cycles := int64(1 + rng.Intn(3))
+				start := time.Now().UnixNano()
+				last := nextJanitor + (cycles-1)*iv
+				time.Sleep(time.Duration(last-start) + time.Duration(rng.Int63n(iv)))
+				synctest.Wait()
+
+				nextJanitor = last + iv
+				op.Kind = "cleanup"
+				op.Now = last
+				afterWalk = new(Res)
+				*afterWalk = b.Walk()
+				op.Removed = removedKeys(before, *afterWalk)
 				res = Res{Kind: "unit"}
 			}
 
@@ -326,6 +370,11 @@ func RunBackendOps(t *testing.T, rng *rand.Rand, fl string, conf BConf, g GenOpt
 
 			out.Ops = append(out.Ops, op)
 			out.Results = append(out.Results, res)
+
+			if afterWalk != nil {
+				out.Ops = append(out.Ops, BOp{Kind: "walk"})
+				out.Results = append(out.Results, *afterWalk)
+			}
 		}
 	})
 
